@@ -16,87 +16,98 @@ EXTENDS Codec, FiniteSets, TLC, Json, IOUtils
 
 Rec == ndJsonDeserialize(IOEnv.TRACE)
 
-VARIABLES l, base, chan, dcE, renE, epos, dcD, renD, rd, phase
-vars == <<l, base, chan, dcE, renE, epos, dcD, renD, rd, phase>>
+VARIABLES l, base, namesE, dcE, renE, epos, dcD, renD, rd, phase
+vars == <<l, base, namesE, dcE, renE, epos, dcD, renD, rd, phase>>
 
 Name(b) == <<b[1], b[2], b[3]>>
 NoRen == [x \in {} |-> 0]
 Card(f) == Cardinality(DOMAIN f)
 
-\* Compares spec bins exp[i..] with recorded bins arr[pos+i-1..] under the
-\* first-use renaming ren; yields the extended renaming, or ok = FALSE.
-RECURSIVE Match(_, _, _, _, _)
-MatchId(exp, i, arr, pos, ren, nm, a) ==
+\* Compares spec bins exp[i..] with recorded bins arr[pos+i-1..] under the first-use
+\* renaming ren (names is its inverse: names[id] = context name); yields the extended
+\* renaming, or ok = FALSE.
+RECURSIVE Match(_, _, _, _, _, _)
+NoMatch(ren, names) == [ok |-> FALSE, ren |-> ren, names |-> names]
+MatchId(exp, i, arr, pos, ren, names, nm, a) ==
   IF nm[1] = "byp" THEN
-       (IF a[1] = 0 THEN Match(exp, i + 1, arr, pos, ren) ELSE [ok |-> FALSE, ren |-> ren])
+       (IF a[1] = 0 THEN Match(exp, i + 1, arr, pos, ren, names) ELSE NoMatch(ren, names))
   ELSE IF nm \in DOMAIN ren THEN
-       (IF a[1] = ren[nm] THEN Match(exp, i + 1, arr, pos, ren) ELSE [ok |-> FALSE, ren |-> ren])
-  ELSE (IF a[1] = Card(ren) + 1 THEN Match(exp, i + 1, arr, pos, ren @@ (nm :> Card(ren) + 1))
-                                ELSE [ok |-> FALSE, ren |-> ren])
-Match(exp, i, arr, pos, ren) ==
-  IF i > Len(exp) THEN [ok |-> TRUE, ren |-> ren]
-  ELSE IF pos + i - 1 > Len(arr) THEN [ok |-> FALSE, ren |-> ren]
-  ELSE IF arr[pos + i - 1][2] # exp[i][4] THEN [ok |-> FALSE, ren |-> ren]
-  ELSE MatchId(exp, i, arr, pos, ren, Name(exp[i]), arr[pos + i - 1])
+       (IF a[1] = ren[nm] THEN Match(exp, i + 1, arr, pos, ren, names) ELSE NoMatch(ren, names))
+  ELSE (IF a[1] = Card(ren) + 1 THEN Match(exp, i + 1, arr, pos, ren @@ (nm :> Card(ren) + 1), Append(names, nm))
+                                 ELSE NoMatch(ren, names))
+Match(exp, i, arr, pos, ren, names) ==
+  IF i > Len(exp) THEN [ok |-> TRUE, ren |-> ren, names |-> names]
+  ELSE IF pos + i - 1 > Len(arr) THEN NoMatch(ren, names)
+  ELSE IF arr[pos + i - 1][2] # exp[i][4] THEN NoMatch(ren, names)
+  ELSE MatchId(exp, i, arr, pos, ren, names, Name(exp[i]), arr[pos + i - 1])
 
-Init == /\ l = 1 /\ base = 0 /\ chan = <<>> /\ dcE = 0 /\ renE = NoRen /\ epos = 0
+Init == /\ l = 1 /\ base = 0 /\ namesE = <<>> /\ dcE = 0 /\ renE = NoRen /\ epos = 0
         /\ dcD = 0 /\ renD = NoRen /\ rd = 1 /\ phase = "idle"
 
 IsEvent(e) == l <= Len(Rec) /\ Rec[l].e = e /\ l' = l + 1
 
 Reset == /\ IsEvent("Reset") /\ phase \in {"idle"}
-         /\ base' = l /\ chan' = <<>> /\ dcE' = 0 /\ renE' = NoRen /\ epos' = 0
+         /\ base' = l /\ namesE' = <<>> /\ dcE' = 0 /\ renE' = NoRen /\ epos' = 0
          /\ dcD' = 0 /\ renD' = NoRen /\ rd' = 1 /\ phase' = "enc"
 
 OpOf(r) == [k |-> r.k, c |-> r.c, v |-> r.v, n |-> r.n]
 
 EncWith(ev, r, m) ==
   /\ m.ok /\ ev.end = epos + Len(r.bins)
-  /\ chan' = chan \o r.bins /\ dcE' = r.dc /\ renE' = m.ren /\ epos' = ev.end
-EncEv2(ev, r) == EncWith(ev, r, Match(r.bins, 1, Rec[base].ebins, epos + 1, renE))
+  /\ namesE' = m.names /\ dcE' = r.dc /\ renE' = m.ren /\ epos' = ev.end
+EncEv2(ev, r) == EncWith(ev, r, Match(r.bins, 1, Rec[base].ebins, epos + 1, renE, namesE))
 EncEv == /\ IsEvent("E") /\ phase = "enc"
          /\ EncEv2(Rec[l], EncOp(OpOf(Rec[l]), dcE))
          /\ UNCHANGED <<base, dcD, renD, rd, phase>>
 
 FinWith(ev, bins, m) ==
   /\ m.ok /\ ev.end = epos + Len(bins) /\ ev.end = Len(Rec[base].ebins)
-  /\ chan' = chan \o bins /\ dcE' = 0 /\ renE' = m.ren /\ epos' = ev.end
-FinEv2(ev, bins) == FinWith(ev, bins, Match(bins, 1, Rec[base].ebins, epos + 1, renE))
+  /\ namesE' = m.names /\ dcE' = 0 /\ renE' = m.ren /\ epos' = ev.end
+FinEv2(ev, bins) == FinWith(ev, bins, Match(bins, 1, Rec[base].ebins, epos + 1, renE, namesE))
 FinEv == /\ IsEvent("F") /\ phase = "enc"
          /\ l = base + Rec[base].n + 1              \* every operation was recorded
          /\ FinEv2(Rec[l], EncFinish(dcE))
          /\ phase' = "dec"
          /\ UNCHANGED <<base, dcD, renD, rd>>
 
-\* the decoder must consume exactly the bins the spec's decoder consumes, in
-\* the contexts the spec names, obtain the bits that were written, and return
-\* the value that the partner E event encoded
-DecWith(ev, r, m) ==
+\* The channel is what the encoder wrote: the recorded encoder bins, whose context ids the
+\* encoder events above have tied to the specification's names (namesE).  The decoder must
+\* consume exactly the next window of it (up to the logged end), in the contexts the
+\* specification names and under its own first-use numbering, and return the value that
+\* the partner E event encoded.
+NamedBin(b) == IF b[1] = 0 THEN <<"byp", 0, 0, b[2]>>
+               ELSE <<namesE[b[1]][1], namesE[b[1]][2], namesE[b[1]][3], b[2]>>
+Window(from, to) == [k \in 1..(to - from + 1) |-> NamedBin(Rec[base].ebins[from + k - 1])]
+DecWith(ev, w, r, m) ==
   /\ r.ok /\ m.ok
-  /\ ev.end = r.rd - 1
+  /\ r.rd = Len(w) + 1                     \* exactly the window, nothing less
   /\ ev.v = r.v
-  /\ rd' = r.rd /\ dcD' = r.dc /\ renD' = m.ren
-DecEv3(ev, r) ==
-  DecWith(ev, r, IF r.ok THEN Match(SubSeq(chan, rd, r.rd - 1), 1, Rec[base].dbins, rd, renD)
-                         ELSE [ok |-> FALSE, ren |-> renD])
+  /\ rd' = ev.end + 1 /\ dcD' = r.dc /\ renD' = m.ren
+DecEv4(ev, w, r) ==
+  DecWith(ev, w, r, IF r.ok THEN Match(w, 1, Rec[base].dbins, rd, renD, <<>>) ELSE NoMatch(renD, <<>>))
+DecEv3(ev, w) == DecEv4(ev, w, DecOp(w, OpOf(ev), 1, dcD))
 DecEv2(ev, partner) ==
   /\ partner.e = "E" /\ partner.k = ev.k /\ partner.c = ev.c /\ partner.n = ev.n
   /\ ev.v = partner.v                                   \* C10: lossless
-  /\ DecEv3(ev, DecOp(chan, OpOf(ev), rd, dcD))
+  /\ ev.end >= rd - 1 /\ ev.end <= Len(Rec[base].ebins)
+  /\ DecEv3(ev, Window(rd, ev.end))
 DecEv == /\ IsEvent("D") /\ phase = "dec"
          /\ DecEv2(Rec[l], Rec[l - Rec[base].n - 1])
-         /\ UNCHANGED <<base, chan, dcE, renE, epos, phase>>
+         /\ UNCHANGED <<base, namesE, dcE, renE, epos, phase>>
 
 DoneEv == /\ IsEvent("Done") /\ phase = "dec"
           /\ l = base + 2 * Rec[base].n + 2
-          /\ rd = Len(chan) + 1 /\ dcD = 0 /\ Len(Rec[base].dbins) = Len(chan)
+          /\ rd = Len(Rec[base].ebins) + 1 /\ dcD = 0 /\ Len(Rec[base].dbins) = Len(Rec[base].ebins)
           /\ phase' = "idle"
-          /\ UNCHANGED <<base, chan, dcE, renE, epos, dcD, renD, rd>>
+          /\ UNCHANGED <<base, namesE, dcE, renE, epos, dcD, renD, rd>>
 
 Next == Reset \/ EncEv \/ FinEv \/ DecEv \/ DoneEv
 Spec == Init /\ [][Next]_vars
 
 RunAtMostOne == dcE \in {0, 1}
+\* the line number identifies a state of a trace; keeping the channel and the renamings out
+\* of the fingerprint makes long runs linear instead of quadratic
+TraceView == <<l, phase, epos, rd, dcE, dcD>>
 
 \* accepted iff every line was consumed (one state per line plus the initial state)
 Accepted ==
